@@ -447,3 +447,120 @@ class Session:
         if isinstance(goal, Sym):
             goal = zbool(goal)
         self.ctx.oblige(f"{self.prefix}/canary:{label}", goal, hyps, "canary")
+
+
+# ----------------------------------------------------------------------------- loop contracts
+def _stored_names(body):
+    import ast as _ast
+
+    names = set()
+    for st in body:
+        for n in _ast.walk(st):
+            if isinstance(n, _ast.Name) and isinstance(n.ctx, (_ast.Store, _ast.Del)):
+                names.add(n.id)
+    return names
+
+
+class LoopSpec:
+    """inductive contract of one loop of a repo function.
+
+    make(I, env, i): put the loop-modified variables into an ARBITRARY state satisfying the invariant at the
+                     start of iteration i (for-loops: i is the symbolic counter; while-loops: i is None)
+    check(I, env, i, tag): emit the obligations 'state satisfies the invariant at i'
+    The same predicate is used both ways (assumed by make through axioms-on-access, checked by check).
+    Obligations: <..>/inv-init, <..>/inv-step.  Termination of while loops is NOT proved."""
+
+    def __init__(self, make, check, modifies=None, label="loop"):
+        self.make, self.check, self.modifies, self.label = make, check, modifies, label
+
+    def _havoc_guard(self, I, st, env, done_before):
+        mods = _stored_names(st.body)
+        if hasattr(st, "target"):
+            import ast as _ast
+
+            for n in _ast.walk(st.target):
+                if isinstance(n, _ast.Name):
+                    mods.discard(n.id)
+        declared = set(self.modifies or [])
+        missing = [m for m in mods if m not in declared]
+        temporaries = [m for m in missing]
+        # variables assigned in the body but not part of the invariant are loop-local temporaries:
+        # they are made undefined so that a use after/before assignment cannot silently see a stale value
+        for m in temporaries:
+            env.vars.pop(m, None)
+
+    def run_for(self, I, st, env, it):
+        from .interp import SymRange, BreakEx, ContinueEx
+
+        if not isinstance(it, SymRange):
+            it_list = I.iterate(it)
+            if len(it_list) > 64:
+                raise Unsupported("loop contract on a long concrete loop")
+            # concrete loop: just execute (the contract is only needed for symbolic trip counts)
+            for v in it_list:
+                I.assign(st.target, v, env)
+                try:
+                    I.exec_block(st.body, env)
+                except BreakEx:
+                    return
+                except ContinueEx:
+                    continue
+            return
+        if not (isinstance(it.start, int) and it.start == 0 and isinstance(it.step, int) and it.step == 1):
+            raise Unsupported("loop contract: range must start at 0 with step 1")
+        N = zint(it.stop)
+        self.check(I, env, 0, "inv-init")
+        which = I.choose(2, "loop")
+        if which == 0:
+            i = z3.Int(core.fresh_name("it"))
+            I.ctx.assume(z3.And(i >= 0, i < N))
+            self._havoc_guard(I, st, env, None)
+            self.make(I, env, Sym(i, "int"))
+            I.assign(st.target, Sym(i, "int"), env)
+            try:
+                I.exec_block(st.body, env)
+            except ContinueEx:
+                pass
+            except BreakEx:
+                raise Unsupported("break inside a loop under contract")
+            self.check(I, env, concretize(Sym(z3.simplify(i + 1), "int")), "inv-step")
+            raise PathEnd("loop step verified")
+        I.ctx.assume(N >= 0)
+        self._havoc_guard(I, st, env, None)
+        self.make(I, env, concretize(Sym(N, "int")))
+        if st.orelse:
+            I.exec_block(st.orelse, env)
+
+    def run_while(self, I, st, env):
+        from .interp import BreakEx, ContinueEx
+
+        self.check(I, env, None, "inv-init")
+        which = I.choose(2, "loop")
+        self._havoc_guard(I, st, env, None)
+        self.make(I, env, None)
+        c = I.truth(I.eval(st.test, env))
+        if which == 0:
+            if not c:
+                raise PathEnd("loop body: condition false")
+            try:
+                I.exec_block(st.body, env)
+            except ContinueEx:
+                pass
+            except BreakEx:
+                raise Unsupported("break inside a loop under contract")
+            self.check(I, env, None, "inv-step")
+            raise PathEnd("loop step verified")
+        if c:
+            raise PathEnd("loop exit: condition still true")
+        if st.orelse:
+            I.exec_block(st.orelse, env)
+
+
+def _session_loop(self, qualname, ordinal, spec):
+    """attach a loop contract to the `ordinal`-th loop (pre-order) of repo function `qualname`"""
+    self.find(qualname)
+    self.I.loop_specs[(qualname, ordinal)] = spec
+
+
+Session.loop = _session_loop
+from .core import concretize, PathEnd  # noqa: E402
